@@ -727,7 +727,10 @@ fn message(r: &mut Rng, for_tag: bool) -> Option<Vec<u8>> {
 
 fn extra_header(r: &mut Rng) -> (Vec<u8>, Vec<Vec<u8>>) {
     let name = r.pick(&[&b"gpgsig"[..], b"gpgsig", b"mergetag", b"gpgsig-sha256", b"x-custom", b"HG:extra", b"change-id", b"Signed-off-by:"]).to_vec();
-    let lines: Vec<Vec<u8>> = match r.below(8) {
+    let lines: Vec<Vec<u8>> = match r.below(11) {
+        8 => vec![b"first line".to_vec(), b"exactly one continuation".to_vec()],
+        9 => vec![b"value".to_vec(), Vec::new()],
+        10 => vec![b"a".to_vec(), b"b".to_vec(), b"c".to_vec()],
         0 | 1 => PGP.split('\n').map(|l| l.as_bytes().to_vec()).collect(),
         2 => vec![b"single value".to_vec()],
         3 => vec![b"I0123456789abcdef".to_vec()],
